@@ -38,7 +38,9 @@ func String(str string, t reflect.Type) (reflect.Value, error) {
 			if parseErr != nil {
 				return reflect.Value{}, fmt.Errorf("parse error of item %d %q: %s", idx, strVal, parseErr)
 			}
-			castSlice = reflect.Append(castSlice, castVal.Elem())
+			// the element was parsed into the basic type of its kind;
+			// the slice's element type may be a user-defined type.
+			castSlice = reflect.Append(castSlice, castVal.Elem().Convert(t.Elem()))
 		}
 		return castSlice, nil
 
